@@ -129,24 +129,24 @@ fn check_step<const N: usize>(g: &mut CatchGradualDifficulty, w: &Witness<N>, m:
         let k = p + n + 1;
         assert!(res.is_some(), "C15,C02 catch: a value is produced while enough values remain");
         let a = res.unwrap();
-        assert!(a.n_fruits == m.fruits[k], "C02 catch: n_fruits counts the fruits of the prefix");
-        assert!(a.n_droplets == m.droplets[k], "C02 catch: n_droplets counts the droplets of the prefix");
-        assert!(a.n_tiny_droplets == m.tiny[k], "C02 catch: n_tiny_droplets counts the tiny droplets of the prefix");
+        assert!(a.n_fruits == m.fruits[k], "C02,C15 catch: n_fruits counts the fruits of the prefix");
+        assert!(a.n_droplets == m.droplets[k], "C02,C15 catch: n_droplets counts the droplets of the prefix");
+        assert!(a.n_tiny_droplets == m.tiny[k], "C02,C15 catch: n_tiny_droplets counts the tiny droplets of the prefix");
         assert!((a.n_fruits + a.n_droplets) as usize == k, "C14 catch: fruits + droplets == objects passed");
         assert!(g.idx == k, "C15 catch: cursor advanced by n + 1");
         assert!(g.len() == N - k, "C15 catch: len() after the call");
         if ghost {
             let first = if p == 0 { 0 } else { p - 1 };
             let expect = (k - 1) - first;
-            assert!(log_len() - log0 == expect, "C02 catch: number of processed difficulty objects");
+            assert!(log_len() - log0 == expect, "C02,C15 catch: number of processed difficulty objects");
             let mut j = 0;
             while j < expect {
-                assert!(log_at(log0 + j) == first + j, "C02 catch: processed objects in order");
+                assert!(log_at(log0 + j) == first + j, "C02,C15 catch: processed objects in order");
                 j += 1;
             }
         } else if let Some(map) = map {
             let one = Difficulty::new().passed_objects(k as u32).calculate_for_mode::<Catch>(map).unwrap();
-            assert!(one == a, "C02 catch: value equals one-shot passed_objects(i)");
+            assert!(one == a, "C02,C15 catch: value equals one-shot passed_objects(i)");
         }
     } else {
         if !(skip & SKIP_NTH_BEYOND != 0 && remaining > 0) {
@@ -193,6 +193,11 @@ fn literal_state<const N: usize, const M: usize>(w: &Witness<N>, m: &Model) -> C
 fn restrict_to_class<const N: usize>(w: &Witness<N>, class: u8) {
     if class == 1 {
         kani::assume(w.call == 1 && w.p < N && w.n >= N - w.p);
+    }
+    if class == 4 {
+        // nth(n >= 1) strictly inside the map from a non-zero cursor (the cheap slice of N = 3
+        // that the quick tier runs)
+        kani::assume(w.call == 1 && w.p >= 1 && w.n >= 1 && w.n < N - w.p);
     }
 }
 
@@ -242,8 +247,10 @@ s1_proof!(s1_catch_step_n2, 2, 1, 6);
 s1_proof!(s1_catch_step_n3, 3, 2, 7);
 s1_proof!(s1_catch_step_n4, 4, 3, 8);
 s1_proof!(kf_catch_nth_beyond_end, 2, 1, 6, 0, 1);
+s1_proof!(s1_catch_nth_inside_n3, 3, 2, 7, SKIP_NTH_BEYOND, 4);
 
 verif_replay_table!(verif_replay_catch_gradual;
+    s1_catch_nth_inside_n3,
     kf_catch_nth_beyond_end,
     s1_catch_step_n0, s1_catch_step_n1, s1_catch_step_n2, s1_catch_step_n3, s1_catch_step_n4,
 );
